@@ -74,3 +74,35 @@ Definition intern_sem (ir : find_ir) (o : nat -> name -> name -> bool) (tbl : li
 (** what ends up in the char array for one interned name *)
 Definition stored_sem (ir : store_ir) (s : name) : list Z :=
   if store_ok ir then s ++ [0] else [].
+
+(** dr_string_table_intern, the function the dump calls for every file name, as a statement list.  The model
+    [intern_sem] is the body [WFind; WAppendIfNew; WReturnIdx]:
+      idx = dr_string_table_find(t, s);  if (idx == t->n) dr_string_table_append(t, s);  return idx;
+    Every other statement (an early return, a memo of the last answer, ...) is [WOther] and has no meaning here.
+    [w_static_locals]: `static` locals in find / append / intern / flatten; [w_data_symbols]: writable data symbols
+    defined by dr_dump.o.  Both must be 0: the string table of a dump is a function of the names of THAT dump,
+    nothing survives from one dump of the process to the next. *)
+Inductive wstmt := WFind | WAppendIfNew | WReturnIdx | WOther.
+Record wrap_ir := mk_wrap_ir { w_body : list wstmt; w_static_locals : nat; w_data_symbols : nat }.
+
+Definition wrap_ok (w : wrap_ir) : bool :=
+  match w_body w with
+  | [WFind; WAppendIfNew; WReturnIdx] => true
+  | _ => false
+  end && Nat.eqb (w_static_locals w) 0 && Nat.eqb (w_data_symbols w) 0.
+
+Definition wstep (ir : find_ir) (o : nat -> name -> name -> bool) (s : name) (st : list name * Z) (c : wstmt)
+  : option (list name * Z) :=
+  match c with
+  | WFind => Some (fst st, find_sem ir o (fst st) s 0)
+  | WAppendIfNew => Some (if snd st =? Z.of_nat (length (fst st)) then fst st ++ [s] else fst st, snd st)
+  | WReturnIdx => Some st
+  | WOther => None
+  end.
+
+Fixpoint wrun (ir : find_ir) (o : nat -> name -> name -> bool) (s : name) (b : list wstmt) (st : list name * Z)
+  : option (list name * Z) :=
+  match b with
+  | [] => Some st
+  | c :: r => match wstep ir o s st c with Some st' => wrun ir o s r st' | None => None end
+  end.
